@@ -420,6 +420,11 @@ def observe(w, with_ops=True):
         try:
             q = Q.Quantity(f"1 {sym}")
             fp['P:' + sym] = type(q).__name__
+            if sym.strip() != sym and sym.strip() in w.um and \
+                    q.unit is w.units[sym.strip()]:
+                # blanks around a declared symbol: text is resolved by the
+                # symbol as written first, by the stripped symbol second
+                continue
             viol.append(('C16:rejected-symbol-parses',
                          f"Quantity('1 {sym}') gives a {type(q).__name__}"))
         except Q.QuantityError:
